@@ -9,7 +9,7 @@ from .. import evm, asm, hermetic, runner, pipeline, gen, options, states
 
 ID = "C05"
 RULE = ("blocks B from the generators and the corpus; B' by semantic mutation operators (operand swap of a non-commutative "
-        "operation, signed/unsigned, shift-kind, MOD/SMOD, LT/GT, MSTORE/MSTORE8, ADD/SUB, AND/OR substitutions, constant +-1 / "
+        "operation or of any two operands of an operation with >= 3 operands, signed/unsigned, shift-kind, MOD/SMOD, LT/GT, MSTORE/MSTORE8, ADD/SUB, AND/OR substitutions, constant +-1 / "
         "boundary, dropped / duplicated / swapped stores, DUP/SWAP index +-1, deleted instruction with compensating POP/PUSH); a pair "
         "enters the test ONLY if the reference interpreter finds a state that distinguishes B and B' (otherwise it is discarded and "
         "counted); then compare_asm_block_asm_format(B,B') must answer False; compare(B,B) must answer True for every generated "
@@ -42,7 +42,7 @@ def mutants(instrs, rng, k=3):
         i = rng.choice(idxs)
         name, arg = instrs[i]
         ops = []
-        if name in NONCOMM:
+        if name in NONCOMM or (name in evm.ARITY and evm.ARITY[name][0] >= 3):
             ops.append("swap-operands")
         if name in SUBST:
             ops.append("subst")
@@ -65,7 +65,8 @@ def mutants(instrs, rng, k=3):
         op = rng.choice(ops)
         m = list(instrs)
         if op == "swap-operands":
-            m[i:i] = [("SWAP1", None)]
+            # exchange the first operand with another one (any of them for operations of three and more operands)
+            m[i:i] = [("SWAP%d" % rng.randrange(1, evm.ARITY[name][0]), None)]
         elif op == "subst":
             m[i] = (rng.choice(SUBST[name]), None)
         elif op == "const":
@@ -185,37 +186,89 @@ def check_reflexive(instrs, argv, stats, label):
     return []
 
 
+def check_pair(instrs, m, op, pos, argv, rng, stats):
+    """one (block, distinguishable variant) pair through the tool's checker"""
+    stats.evaluations += 1
+    try:
+        evm.need_and_delta(m)
+    except KeyError:
+        return []
+    d = distinguishing_state(instrs, m, rng)
+    if d is None:
+        stats.classes["mutant without distinguishing state (discarded)"] += 1
+        return []
+    stats.classes["mutant " + op.split(":")[0]] += 1
+    stats.nontrivial.add(runner.jhash([op, asm.instrs_to_plain(instrs), pos]))
+    r = pipeline.gasol(compare_in_tool, asm.instrs_to_items(instrs), asm.instrs_to_items(m), list(argv), cpu=30)
+    if r.kind != "ok":
+        stats.classes["child-" + r.kind] += 1
+        return []
+    eq, reason = r.value
+    case = {"type": "pair", "blocks": [asm.instrs_to_plain(instrs), asm.instrs_to_plain(m)], "argv": list(argv), "operator": op,
+            "state": d.get("state"), "why_distinguishable": d.get("reason")}
+    if eq is True:
+        return [runner.Failure("accepted-distinguishable", op, "[%s] checker says equal for `%s` vs mutant (%s) `%s`; distinguished by %s" % (
+            options.label(argv), asm.instrs_to_plain(instrs), op, asm.instrs_to_plain(m), d.get("reason")), case)]
+    if eq == "raised":
+        return [runner.Failure("checker-raised", reason.split(":")[0], "compare raised %s on `%s` vs `%s`" % (reason, asm.instrs_to_plain(instrs), asm.instrs_to_plain(m)), case)]
+    if len(stats.samples) < 6:
+        stats.sample({"block": asm.instrs_to_plain(instrs), "mutant": asm.instrs_to_plain(m), "operator": op, "distinguished_by": d.get("reason"),
+                      "checker_reason": reason[:100]})
+    return []
+
+
 def check_mutants(instrs, argv, rng, stats, label):
     fails = []
-    items = asm.instrs_to_items(instrs)
     for op, pos, m in mutants(instrs, rng):
-        stats.evaluations += 1
-        try:
-            evm.need_and_delta(m)
-        except KeyError:
-            continue
-        d = distinguishing_state(instrs, m, rng)
-        if d is None:
-            stats.classes["mutant without distinguishing state (discarded)"] += 1
-            continue
-        stats.classes["mutant " + op.split(":")[0]] += 1
-        stats.nontrivial.add(runner.jhash([op, asm.instrs_to_plain(instrs), pos]))
-        r = pipeline.gasol(compare_in_tool, items, asm.instrs_to_items(m), list(argv), cpu=30)
-        if r.kind != "ok":
-            stats.classes["child-" + r.kind] += 1
-            continue
-        eq, reason = r.value
-        case = {"type": "pair", "blocks": [asm.instrs_to_plain(instrs), asm.instrs_to_plain(m)], "argv": list(argv), "operator": op,
-                "state": d.get("state"), "why_distinguishable": d.get("reason")}
-        if eq is True:
-            fails.append(runner.Failure("accepted-distinguishable", op, "[%s] checker says equal for `%s` vs mutant (%s) `%s`; distinguished by %s" % (
-                options.label(argv), asm.instrs_to_plain(instrs), op, asm.instrs_to_plain(m), d.get("reason")), case))
-        elif eq == "raised":
-            fails.append(runner.Failure("checker-raised", reason.split(":")[0], "compare raised %s on `%s` vs `%s`" % (reason, asm.instrs_to_plain(instrs), asm.instrs_to_plain(m)), case))
-        elif len(stats.samples) < 6:
-            stats.sample({"block": asm.instrs_to_plain(instrs), "mutant": asm.instrs_to_plain(m), "operator": op, "distinguished_by": d.get("reason"),
-                          "checker_reason": reason[:100]})
+        fails += check_pair(instrs, m, op, pos, argv, rng, stats)
     return fails
+
+
+def systematic_pairs():
+    """every operation of the instruction set in every operand permutation and against every other operation of the
+    same shape, bare and as an operand of something else: (operator label, block, variant)"""
+    out = []
+    I = lambda *names: [(n, None) for n in names]
+    ctx = [("bare", [], []), ("stored", [], [("PUSH", 0), ("SSTORE", None)]), ("nested", [], I("CALLER", "SUB", "ISZERO")),
+           ("dup", I("DUP3", "DUP3", "DUP3"), [])]
+    names = sorted(n for n in evm.ARITY if not n.startswith(("DUP", "SWAP", "PUSH")) and n not in evm.TERMINALS and n not in ("POP", "JUMPDEST", "tag"))
+    for n in names:
+        a, p = evm.ARITY[n]
+        for k in range(1, a):
+            for cname, pre, post in ctx:
+                if (post and p != 1) or (cname == "dup" and a != 3):
+                    continue
+                out.append(("permute:%s" % n, pre + I(n) + post, pre + I("SWAP%d" % k, n) + post))
+        if a >= 3:
+            # rotation of the first three operands
+            out.append(("permute:%s" % n, I(n), I("SWAP1", "SWAP2", n)))
+    for n1 in names:
+        for n2 in names:
+            if n1 == n2 or evm.ARITY[n1] != evm.ARITY[n2]:
+                continue
+            if evm.ARITY[n1][0] == 0 and n1 > n2:
+                continue
+            if (n1 in evm.SPLIT) != (n2 in evm.SPLIT):
+                continue
+            out.append(("subst:%s" % n1, I(n1), I(n2)))
+            if evm.ARITY[n1][1] == 1 and evm.ARITY[n1][0] >= 1:
+                out.append(("subst:%s" % n1, I(n1, "CALLER", "SUB"), I(n2, "CALLER", "SUB")))
+    return out
+
+
+def shard_systematic(pairs, sd):
+    hermetic.setup_repo()
+    stats = runner.Stats()
+    rng = random.Random(sd)
+    for op, a, b in pairs:
+        for argv in (["-greedy"], ["-storage", "-greedy"]):
+            runner.journal({"type": "pair", "blocks": [asm.instrs_to_plain(a), asm.instrs_to_plain(b)], "argv": argv})
+            fs = check_pair(a, b, op, 0, argv, rng, stats)
+            stats.classes["systematic pairs"] += 1
+            if fs:
+                for f in pipeline.confirmed(fs, lambda: _redo(fs), stats):
+                    stats.fail(f)
+    return stats
 
 
 # ------------------------------------------------------------------ Forves adapter
@@ -437,5 +490,8 @@ def main(tier, seed_):
     n, nf = (2400, 10) if tier == "quick" else (120000, 300)
     per = max(1, n // runner.NPROC)
     res = runner.run_shards(_dispatch, [(shard_random, (per, runner.shard_seed(seed_, i, "c05"), nf)) for i in range(runner.NPROC)])
+    stats.merge(runner.merge_stats(res))
+    res = runner.run_shards(_dispatch, [(shard_systematic, (ch, runner.shard_seed(seed_, i, "c05s"))) for i, ch in
+                                        enumerate(runner.chunks(systematic_pairs(), runner.NPROC)) if ch])
     stats.merge(runner.merge_stats(res))
     return runner.conclude(ID, tier, seed_, stats, RULE, ASSUME, t0, exhaustive=False, shrink=shrink)
